@@ -87,8 +87,8 @@ pub fn check_in(ctx: &Ctx, case: &TermCase) -> Report {
 }
 
 fn strat() -> impl Strategy<Value = TermCase> {
-    let multi = gen::collection_strategy(GenCfg { max_contig: 2500, max_samples: 5, many_samples_pct: 5, single_file: None, vary_presentation: false });
-    let rounds = (gen::collection_strategy(GenCfg { max_contig: 1200, max_samples: 5, many_samples_pct: 15, single_file: Some(true), vary_presentation: false }), 1u32..12).prop_map(|(mut c, pack)| {
+    let multi = gen::collection_strategy(GenCfg { max_contig: 2500, max_samples: 5, many_samples_pct: 5, single_file: None, vary_presentation: false, swarm_pct: 0 });
+    let rounds = (gen::collection_strategy(GenCfg { max_contig: 1200, max_samples: 5, many_samples_pct: 15, single_file: Some(true), vary_presentation: false, swarm_pct: 0 }), 1u32..12).prop_map(|(mut c, pack)| {
         c.params.pack = pack;
         c
     });
